@@ -116,20 +116,28 @@ def normalize_results(S, fmap=None):
 def _commute_writes(effs):
     """Consecutive plain field writes (nothing that could observe them in between) to different fields commute:
     order each such run by field name (stable, so two writes of one field keep their order)."""
+    def flush(run):
+        # within such a run only the last write of a field is visible: an earlier one (a default set before the real value) is dead
+        last = {}
+        for i, w in enumerate(run):
+            last[(w[2], w[3])] = i
+        kept = [w for i, w in enumerate(run) if last[(w[2], w[3])] == i]
+        return sorted(kept, key=lambda x: str(x[3]))
+
     out, run = [], []
     for e in effs:
         if e[0] == "write":
             if run and run[0][1] != e[1]:
-                out.extend(sorted(run, key=lambda x: str(x[3])))
+                out.extend(flush(run))
                 run = []
             run.append(e)
         else:
             if run:
-                out.extend(sorted(run, key=lambda x: str(x[3])))
+                out.extend(flush(run))
                 run = []
             out.append(e)
     if run:
-        out.extend(sorted(run, key=lambda x: str(x[3])))
+        out.extend(flush(run))
     return out
 
 
@@ -175,6 +183,25 @@ def _first_open_ite(v, g):
     return None
 
 
+def _pure_callee(S, e):
+    cands = e.callee or []
+    if not cands or not all(hasattr(c, "qual") for c in cands):
+        return False
+    prog = getattr(S.fn, "prog", None)
+    if prog is None:
+        return False
+    eff = getattr(prog, "_effects_cache", None)
+    if eff is None:
+        from .evalfn import compute_effects
+
+        eff = compute_effects(prog)
+        try:
+            prog._effects_cache = eff
+        except Exception:
+            pass
+    return all(c in eff and not eff[c] for c in cands)
+
+
 class Behaviour(object):
     def __init__(self, S, observe_self_fields=True, fmap=None):
         self.S = S
@@ -194,6 +221,8 @@ class Behaviour(object):
                     continue
                 if e.extra == "new":
                     continue
+                if _pure_callee(S, e):
+                    continue  # a call that can assign nothing is visible only through its result (how often and when it is made is immaterial)
                 self.effects.append(("call", e))
             elif e.kind == "raise":
                 self.effects.append(("raise", e))
@@ -399,7 +428,19 @@ def feasible(assign):
     return True
 
 
-def compare(S_code, S_ref, limit=14, ignore_fields=(), max_leaves=6000, code_fields=None, ref_fields=None):
+def _final_self_state(effs):
+    """Constructor view: the object under construction is judged by the state it ends in. Top-level writes of its own fields are replaced by
+    (field, final value) pairs; everything else (calls, stores, writes on other objects, writes inside loops) keeps its order."""
+    last, rest = {}, []
+    for x in effs:
+        if x[0] == "write" and x[1] == () and x[2] == ("param", "self"):
+            last[x[3]] = x[4]
+        else:
+            rest.append(x)
+    return rest + [("final", f, last[f]) for f in sorted(last, key=str)]
+
+
+def compare(S_code, S_ref, limit=14, ignore_fields=(), max_leaves=6000, code_fields=None, ref_fields=None, final_self=False):
     """Return (n_cases, differences[:k]) - differences are (assignment, what, code, ref).
 
     The case split is made on demand: both behaviours are evaluated under a partial assignment of
@@ -439,6 +480,8 @@ def compare(S_code, S_ref, limit=14, ignore_fields=(), max_leaves=6000, code_fie
             raise _TooMany()
         ea = [x for x in ea if not (x[0] == "write" and x[3] in ignore_fields)]
         eb = [x for x in eb if not (x[0] == "write" and x[3] in ignore_fields)]
+        if final_self:
+            ea, eb = _final_self_state(ea), _final_self_state(eb)
         if ra != rb:
             diffs.append((assign, "return", ra, rb))
         elif ea != eb:
